@@ -67,6 +67,9 @@ def make_device(kind, variant):
         d.rf.setbytes(40313, clock)
         if kind == 'DTrej':
             d.refused = [(40362, 40362)]
+        if kind == 'DTnometer':
+            from ..devsim import DT_OPTIONAL
+            d.refused = list(DT_OPTIONAL['meter'])      # (same serial number as 'DT': e.g. a replaced unit, or a clone)
         return 'DT', d
     d = EsDevice(firmware=b'2222E' if kind == 'ESv2' else b'1414E')
     for i in range(len(d.runtime)):
@@ -310,6 +313,7 @@ PAIRS = [('ET', 'ET'), ('ET745', 'ET'), ('ETbad', 'ET745'), ('ETnobat', 'ET'), (
          ('DT', 'DT1'), ('DTrej', 'DT'), ('DT1', 'DT1'), ('ES', 'ESv2'), ('ETfrag', 'ETfrag'), ('ETfrag', 'DT'), ('ET', 'ETtcp'), ('ET', 'ETaddr'), ('ET', 'ESv2'), ('ET', 'DT'), ('ES', 'ES'), ('ETv1', 'ES'), ('ET745', 'ESv2'),
          ('ET=eq', 'DT=eq'), ('DT=eq', 'ET=eq'), ('ET=eq', 'ES=eq'), ('ES=eq', 'DT=eq'), ('ET=eq', 'ET745=eq')]
 # long-lived objects used from successive event loops (keep-alive on / off): two-step sequences, one loop per step
+PAIRS += [('DTnometer', 'DT'), ('DT', 'DTnometer'), ('DTnometer', 'DTnometer')]
 LOOP_PAIRS = [('ET+ka+loops', 'DT+ka+loops'), ('ET+ka+loops', 'ET+loops'), ('DT+ka+loops', 'ES+ka+loops'), ('ET+ka+loops', 'ETtcp+ka+loops')]
 
 
